@@ -210,6 +210,31 @@ def _conv(ctx, p, rng):
                     ctx.violation('%s:elementwise' % fn_name, {'D': D, 'P': P, 'shape': shp, 'container': cshape, 'vals': kind,
                                                                'got_shape': getattr(getattr(y, 'data', None), 'shape', None)}); return
                 ctx.ok(fn_name, (fn_name,) + cls + (cshape,), exact=True)
+    # --- ndarray2utpm: a container that also holds plain numbers (constants of the program) behind the first polynomial:
+    # a number c is the constant polynomial [c, 0, ..., 0] in every direction
+    if shp == () and kind in ('random', 'integers'):
+        n_el = 4
+        raw2 = [_vals(rng, (D, P), kind) for _ in range(n_el)]
+        consts = {1: 2.5, 3: np.float64(-0.75)} if kind == 'random' else {2: 7}
+        cont = np.empty(n_el, dtype=object)
+        for i in range(n_el):
+            cont[i] = consts[i] if i in consts else UTPM(raw2[i].copy())
+        try:
+            y = U.ndarray2utpm(cont)
+        except Exception as e:
+            ctx.violation('ndarray2utpm:numbers-in-container:raises', {'D': D, 'P': P, 'error': repr(e)[:200]}); return
+        ok = isinstance(y, UTPM) and y.data.shape == (D, P, n_el)
+        for i in range(n_el):
+            if not ok:
+                break
+            if i in consts:
+                want = np.zeros((D, P)); want[0] = consts[i]
+            else:
+                want = raw2[i]
+            ok = _same(y.data[:, :, i], want)
+        if not ok:
+            ctx.violation('ndarray2utpm:numbers-in-container:value', {'D': D, 'P': P, 'vals': kind}); return
+        ctx.ok('ndarray2utpm', ('ndarray2utpm', 'numbers-in-container') + cls, exact=True)
     # --- combine_blocks vs numpy.block per slice
     if len(shp) == 2 and kind != 'complex':
         r1, c1 = shp
